@@ -1,3 +1,337 @@
-import Lomond.Model.Core
+/-
+  C01 — every server message is delivered once, in order, byte-exact.
+  Property theorems only (helper lemmas: Proofs/DeliveryParse, DeliveryWire, DeliveryKeep,
+  DeliveryCalm, Delivery).
+
+  What is proved, about the core model (Model/Core.lean):
+
+  * `parse_one_frame` / `parse_conforming_frame`: from a frame boundary, the bytes of one unmasked
+    frame in **each** of the three length forms (7-bit; 16-bit for any length < 2^16, minimal or
+    not; 64-bit for any length < 2^63, minimal or not; empty payloads included) make the eager
+    parser `pFeed` output exactly that frame — same opcode, FIN, reserved bits, byte-identical
+    payload — and return to a frame boundary.  Text payloads go through the incremental UTF-8
+    validator: if it accepts, the frame comes out; if it rejects, `ParseError("invalid utf8")`.
+  * `feedLoop_eq_fold`: the lazy pipeline `feedLoop` (one bite, then the whole consumer, then the
+    next bite) equals folding the consumer over the eager parser's outputs — for every state and
+    every application — because handling a frame never touches the parser (`consumer_keeps_parser`).
+  * `reassembly`: the frames of a fragmented data message, with Ping/Pong frames between the
+    fragments and empty fragments allowed, pushed through `onFrame`, yield the control events in
+    wire order and then exactly one message event whose payload is the concatenation of the
+    fragment payloads; the fragment list is empty afterwards.
+  * `delivery`: for every list of items (control | fragmented data with interleaved controls) and
+    an optional final Close, serialised with any length form per frame, `feedLoop` appends to the
+    trace exactly `expected items` in completion order — nothing dropped, duplicated, merged,
+    split or reordered — for every application that never calls `close()` and never abandons the
+    loop (it may send anything), with no timeout pending.  `delivery_any_segmentation` adds: and
+    for every way of cutting the byte stream into reads.
+
+  NOT provable here: the clause "a payload never changes after its event has been yielded" is about
+  aliasing of Python buffers (`recv_into` into a shared `bytearray`); a pure model has no aliasing.
+  It is checked by the harness (harness/props/c01.py poisons the receive buffer after every read and
+  compares payloads after the run), and is named as such in the evidence.
+-/
+import Lomond.Proofs.Delivery
+import Lomond.Properties.C02
+
 namespace Lomond.C01
+open Lomond Lomond.Core
+
+/-! ### parse_one_frame -/
+
+theorem pFeed_of_pRun (v : Variant) (p p' : PState) (data : Bytes) (pouts : List (PState × Out))
+    (h : pRun v p data = PRun.pushAll pouts { p := p' }) :
+    pFeed v p data = .ok (p', pouts.map (·.2)) := by
+  unfold pFeed
+  rw [h]
+  simp [PRun.pushAll]
+
+/-- **One frame, any legal length form.**  `p` is any parser state at a frame boundary, `b0` any
+    first byte and `payload` any payload such that the header passes `frame.validate()` in that
+    state (`hv`: reserved bits legal for the state, opcode not reserved, control frames unfragmented
+    and short) and `form` any of the three length forms able to spell the length.  If the payload
+    passes the incremental UTF-8 validation that applies to it (`hd`; no validation at all for
+    binary / control / empty payloads) the eager parser outputs exactly one frame, with the
+    header fields of `b0` and a byte-identical payload, and is at a frame boundary again, with
+    `_is_text` and the validator state updated as `on_frame` says (`doneState`). -/
+theorem parse_one_frame (v : Variant) (p : PState) (hb : Boundary p) (b0 : Nat) (form : LenForm)
+    (payload : Bytes) (hf : form.ok payload.length)
+    (hv : validateFrame v p.compression (hdrFrame b0) payload.length = .ok ()) (d : Nat)
+    (hd : vres (payload ≠ [] ∧ valFlag v (afterHdr p.resumed (hdrFrame b0)) (hdrFrame b0)) p.dfa payload
+            = some d) :
+    pFeed v p (serialise b0 form payload) =
+      .ok (doneState v { afterHdr p.resumed (hdrFrame b0) with dfa := d } { hdrFrame b0 with payload := payload },
+           [.frame { hdrFrame b0 with payload := payload }]) ∧
+    Boundary (doneState v { afterHdr p.resumed (hdrFrame b0) with dfa := d } { hdrFrame b0 with payload := payload }) := by
+  refine ⟨?_, ⟨rfl, rfl, rfl, rfl⟩⟩
+  obtain ⟨q, _, h⟩ := pRun_frame v p hb b0 form payload hf []
+  rw [frameStep_eq v p b0 payload hv, hd, List.append_nil] at h
+  simp only [pRun_nil] at h
+  exact pFeed_of_pRun v p _ _ [(_, _)] h
+
+/-- … and the reverse: if the incremental validation rejects the payload, the parser raises
+    `ParseError("invalid utf8")` and outputs nothing. -/
+theorem parse_one_frame_invalid (v : Variant) (p : PState) (hb : Boundary p) (b0 : Nat) (form : LenForm)
+    (payload : Bytes) (hf : form.ok payload.length)
+    (hv : validateFrame v p.compression (hdrFrame b0) payload.length = .ok ())
+    (hd : vres (payload ≠ [] ∧ valFlag v (afterHdr p.resumed (hdrFrame b0)) (hdrFrame b0)) p.dfa payload
+            = none) :
+    pFeed v p (serialise b0 form payload) = .error (.parse "invalid utf8") := by
+  obtain ⟨q, _, h⟩ := pRun_frame v p hb b0 form payload hf []
+  rw [frameStep_eq v p b0 payload hv, hd, List.append_nil] at h
+  unfold pFeed
+  rw [h]
+
+/-- the same for a conforming server frame `w` (data opcode, or unfragmented control frame of at
+    most 125 bytes; reserved bits clear; any length form that fits) -/
+theorem parse_conforming_frame (v : Variant) (p : PState) (hb : Boundary p) (w : WFrame) (hw : w.Ok)
+    (d : Nat) (hd : vres (w.flag v p) p.dfa w.payload = some d) :
+    pFeed v p w.bytes = .ok (w.next v p d, [.frame w.frame]) ∧ Boundary (w.next v p d) := by
+  refine ⟨?_, next_boundary v p w d⟩
+  have h := pRun_wire_ok v p hb w hw d hd []
+  rw [List.append_nil, pRun_nil] at h
+  exact pFeed_of_pRun v p _ _ [(_, _)] h
+
+theorem parse_conforming_frame_invalid (v : Variant) (p : PState) (hb : Boundary p) (w : WFrame) (hw : w.Ok)
+    (hd : vres (w.flag v p) p.dfa w.payload = none) :
+    pFeed v p w.bytes = .error (.parse "invalid utf8") := by
+  obtain ⟨q, h⟩ := pRun_wire_bad v p hb w hw hd []
+  rw [List.append_nil] at h
+  unfold pFeed
+  rw [h]
+
+/-- Binary, continuation-of-binary, Ping, Pong and Close frames between messages (or inside a binary
+    message) are never validated: they always come out, and the parser stays "between messages". -/
+theorem parse_nontext_frame (v : Variant) (p : PState) (hp : Between p) (w : WFrame) (hw : w.Ok)
+    (hop : w.opcode ≠ 1) :
+    ∃ p', pFeed v p w.bytes = .ok (p', [.frame w.frame]) ∧ Between p' := by
+  obtain ⟨hd, hb⟩ := between_step v p w hp hop
+  exact ⟨_, (parse_conforming_frame v p hp.b w hw 0 hd).1, hb⟩
+
+/-- An unfragmented Text frame whose payload is well-formed UTF-8 comes out. -/
+theorem parse_text_frame (v : Variant) (p : PState) (hp : Between p) (w : WFrame) (hw : w.Ok)
+    (hop : w.opcode = 1) (hfin : w.fin = true) (hwf : Bytes.WF w.payload) (hutf : Utf8.wf w.payload = true) :
+    ∃ p', pFeed v p w.bytes = .ok (p', [.frame w.frame]) ∧ Between p' := by
+  obtain ⟨d, hd, hb⟩ := between_text v p w hp hop 0 (validate_of_wf _ hwf hutf)
+  rw [hfin] at hb
+  exact ⟨_, (parse_conforming_frame v p hp.b w hw d hd).1, hb⟩
+
+/-- A Text frame whose payload the validator rejects (no well-formed continuation exists, see
+    `C05.validate_verdict`) is refused with `ParseError("invalid utf8")` (no extension negotiated). -/
+theorem parse_text_frame_invalid (v : Variant) (p : PState) (hp : Between p) (hc : p.compression = false)
+    (w : WFrame) (hw : w.Ok) (hop : w.opcode = 1) (hbad : Utf8.validate 0 w.payload = none) :
+    pFeed v p w.bytes = .error (.parse "invalid utf8") := by
+  apply parse_conforming_frame_invalid v p hp.b w hw
+  have h1 := afterHdr_text p.resumed w hop
+  have hne : w.payload ≠ [] := by
+    intro h; rw [h] at hbad; simp [Utf8.validate] at hbad
+  have hnv : ¬ noValidate v ({ p.resumed with isText := true, isCompressed := false } : PState) := by
+    unfold noValidate
+    have : p.resumed.compression = false := hc
+    cases v.perMsgValidate <;> simp [this]
+  have hf : w.flag v p = true := by
+    unfold WFrame.flag valFlag
+    rw [h1]
+    simp [hne, hnv, Frame.isText, WFrame.hdr, hop, Gen.opText]
+  rw [hf, hp.dfa]
+  exact hbad
+
+/-! ### feedLoop = fold -/
+
+/-- handling a frame — stream, message, websocket, session bookkeeping, any application reaction,
+    `_regular()` — never changes the parser state, whatever happens (normal return or exception) -/
+theorem consumer_keeps_parser (f : Frame) (s : Sys) : (onOut (.frame f) s).state.p = s.p :=
+  keep_onOut_frame f s
+
+/-- **The lazy loop is the fold of the consumer over the eager parser's outputs**: any data, any
+    state after the handshake, any application, errors and early `break`s included. -/
+theorem feedLoop_eq_fold (data : Bytes) (s : Sys) (hc : s.p.cont ≠ .header) :
+    feedLoop data s = consume (pRun s.cfg.v s.p data).fin (pRun s.cfg.v s.p data).outs s :=
+  Core.feedLoop_eq_fold data s hc
+
+/-! ### reassembly -/
+
+/-- **Reassembly.**  `m` is any data message: Text or Binary, a first fragment, then any number of
+    continuation fragments (FIN on the last only), each preceded by any number of Ping/Pong frames
+    (≤ 125 bytes); fragments may be empty.  Pushing its frames through `onFrame` (via `onOut`) from
+    any good open state with an empty fragment list yields exactly: the control events in wire order,
+    then one message event with the concatenated payload (Binary byte-exact; Text as the code points
+    of its strict UTF-8 decoding) — nothing else apart from housekeeping Polls — and the fragment
+    list is empty again, the parser untouched. -/
+theorem reassembly (m : DataMsg) (hm : m.Ok) (s : Sys) (g : Good s) (hcl : s.closed = false)
+    (hfr : s.frames = []) :
+    ∃ s', feedFrames (m.wire.map WFrame.frame) s = .ok true s' ∧
+      delivered s'.trace = m.events.reverse ++ delivered s.trace ∧
+      s'.frames = [] ∧ s'.p = s.p ∧ s'.closed = false := by
+  have hmap : ((m.wire.map WFrame.frame).map (fun f => (s.p, Out.frame f))).map (·.2)
+      = (m.wire.map WFrame.frame).map Out.frame := by
+    simp [List.map_map]
+  obtain ⟨s1, e1, r1, f1⟩ := eats_data m hm _ hmap (finOk s.p) [] s g hcl hfr
+  rw [List.append_nil, consume_eq_feedFrames] at e1
+  exact ⟨{ s1 with p := s.p }, e1, r1.evs, f1, rfl, by show s1.closed = false; rw [r1.closed]; exact hcl⟩
+
+/-- the Text event carries exactly the bytes that were sent: its code points are Unicode scalar
+    values whose UTF-8 encoding is the concatenation of the fragment payloads -/
+theorem text_event_exact (m : DataMsg) (hm : m.Ok) (ht : m.text = true) :
+    ∃ cps, m.event = .text cps ∧ Utf8.encode cps = m.payload ∧ ∀ c ∈ cps, Utf8.isScalar c = true := by
+  obtain ⟨_, hutf⟩ := hm.2.2 ht
+  have hs : (Utf8.decode m.payload).isSome = true := by rw [Utf8.decode_isSome]; exact hutf
+  obtain ⟨cps, hcps⟩ := Option.isSome_iff_exists.mp hs
+  obtain ⟨he, hsc⟩ := Utf8.encode_decode m.payload cps hcps
+  exact ⟨cps, by simp [DataMsg.event, ht, hcps], he, hsc⟩
+
+/-- the Binary event carries exactly the bytes that were sent -/
+theorem binary_event_exact (m : DataMsg) (ht : m.text = false) : m.event = .binary m.payload := by
+  simp [DataMsg.event, ht]
+
+/-- **Single message, bytes in → event out**: the serialisation of one data message (any length form
+    per frame, any fragmentation, controls between fragments) fed to `feedLoop`. -/
+theorem single_message (m : DataMsg) (hm : m.Ok) (s : Sys) (g : Good s) (hcl : s.closed = false)
+    (hfr : s.frames = []) (hp : Between s.p) :
+    ∃ s', feedLoop (wireBytes m.wire) s = .ok true s' ∧
+      delivered s'.trace = m.events.reverse ++ delivered s.trace ∧ s'.frames = [] ∧ Between s'.p := by
+  obtain ⟨s', e, r, f, b⟩ := feed_items [.data m] (by intro it hit; simp at hit; subst hit; exact hm) s g hcl hfr hp
+  refine ⟨s', ?_, ?_, f, b⟩
+  · simpa [Item.wire] using e
+  · simpa [Item.events] using r.evs
+
+/-! ### delivery -/
+
+/-- the byte stream of a conforming server: the items back to back, then possibly a Close -/
+def streamBytes (items : List Item) (close : Option CloseF) : Bytes :=
+  wireBytes (items.flatMap Item.wire) ++ (match close with | none => [] | some c => c.wire.bytes)
+
+/-- the events the application must see, in completion order -/
+def expected (items : List Item) (close : Option CloseF) : List Event :=
+  items.flatMap Item.events ++ (match close with | none => [] | some c => [c.event])
+
+/-- all frames legal: length forms fit, control payloads ≤ 125, Text payloads and the Close reason
+    well-formed UTF-8, Close code a legal wire code -/
+def Conforming (items : List Item) (close : Option CloseF) : Prop :=
+  (∀ it ∈ items, it.Ok) ∧ (∀ c, close = some c → c.Ok)
+
+/-- **Delivery.**  For every conforming stream — any items, any fragmentation (empty fragments
+    included), any placement of Ping/Pong between fragments, any legal length form for every frame,
+    an optional final Close — fed from a state between two messages of an open, not-closing
+    websocket, with an application that never calls `close()` and never stops iterating (`Good`;
+    it may send whatever it likes in reaction to any event), the events appended to the trace are
+    exactly `expected items close`, in that order (the trace is newest-first), apart from
+    housekeeping Polls; every payload equals what was sent.  Afterwards the fragment list is empty
+    and the parser is between two messages. -/
+theorem delivery (items : List Item) (close : Option CloseF) (hconf : Conforming items close)
+    (s : Sys) (g : Good s) (hcl : s.closed = false) (hcg : s.closing = false) (hfr : s.frames = [])
+    (hp : Between s.p) :
+    ∃ s', feedLoop (streamBytes items close) s = .ok true s' ∧
+      delivered s'.trace = (expected items close).reverse ++ delivered s.trace ∧
+      s'.frames = [] ∧ s'.closed = false ∧ s'.closing = close.isSome ∧ Between s'.p := by
+  obtain ⟨hitems, hclose⟩ := hconf
+  obtain ⟨s1, e1, r1, f1, b1⟩ := feed_items items hitems s g hcl hfr hp
+  unfold streamBytes expected
+  rw [feedLoop_append, e1]
+  simp only [contLoop]
+  cases close with
+  | none =>
+    refine ⟨s1, feedLoop_nil s1, ?_, f1, by rw [r1.closed]; exact hcl, by rw [r1.closing]; exact hcg, b1⟩
+    simpa using r1.evs
+  | some c =>
+    obtain ⟨s2, e2, d2, cl2, cg2, f2, b2⟩ := feed_close c (hclose c rfl) s1 (r1.good g)
+      (by rw [r1.closed]; exact hcl) (by rw [r1.closing]; exact hcg) b1
+    refine ⟨s2, e2, ?_, f2.trans f1, cl2, cg2, b2⟩
+    rw [d2, r1.evs]
+    simp
+
+/-- Without a Close the websocket may already be closing (the client sent its Close and the server
+    keeps talking): data and control messages are still delivered, in order, byte-exact. -/
+theorem delivery_no_close (items : List Item) (hok : ∀ it ∈ items, it.Ok)
+    (s : Sys) (g : Good s) (hcl : s.closed = false) (hfr : s.frames = []) (hp : Between s.p) :
+    ∃ s', feedLoop (streamBytes items none) s = .ok true s' ∧
+      delivered s'.trace = (expected items none).reverse ++ delivered s.trace ∧
+      s'.frames = [] ∧ s'.closed = false ∧ s'.closing = s.closing ∧ Between s'.p := by
+  obtain ⟨s1, e1, r1, f1, b1⟩ := feed_items items hok s g hcl hfr hp
+  refine ⟨s1, by simpa [streamBytes] using e1, by simpa [expected] using r1.evs, f1,
+    by rw [r1.closed]; exact hcl, r1.closing, b1⟩
+
+/-- the `Good` hypothesis holds in particular with the default configuration (no ping timeout)
+    as long as the client has not sent a Close, for any application that only sends -/
+theorem good_default (s : Sys) (hq : QuietApp s.react) (hpt : s.cfg.pingTimeout = 0)
+    (hsc : s.sentCloseTime = none) : Good s :=
+  ⟨hq, Or.inl hpt, Or.inr (fun ct h => by rw [hsc] at h; cases h)⟩
+
+/-- … and the same result for **every segmentation** of the stream into reads (C02). -/
+theorem delivery_any_segmentation (items : List Item) (close : Option CloseF) (hconf : Conforming items close)
+    (chunks : List Bytes) (hch : chunks.flatten = streamBytes items close)
+    (s : Sys) (g : Good s) (hcl : s.closed = false) (hcg : s.closing = false) (hfr : s.frames = [])
+    (hp : Between s.p) :
+    ∃ s', C02.feedChunks chunks s = .ok true s' ∧
+      delivered s'.trace = (expected items close).reverse ++ delivered s.trace ∧
+      s'.frames = [] ∧ s'.closed = false ∧ s'.closing = close.isSome ∧ Between s'.p := by
+  rw [C02.feedChunks_eq_flatten, hch]
+  exact delivery items close hconf s g hcl hcg hfr hp
+
+
+/-! ### Non-vacuity: concrete inputs satisfying every hypothesis -/
+
+/-- a connection after the handshake: parser at a frame boundary between two messages; the
+    application answers every event by sending a text message (it never closes) -/
+def exState : Sys :=
+  { cfg := {}, react := fun _ => [.sendText (.str [111, 107]) false], env := [],
+    sockOpen := true, selOpen := true, ready := true, startTime := some 0, parsedResponse := true,
+    p := { cont := .hdr2, remPred := 1 } }
+
+theorem exState_good : Good exState :=
+  ⟨by intro hist a ha; simp [exState] at ha; subst ha; rfl, by simp [NoTimeout, exState]⟩
+
+theorem exState_between : Between exState.p := ⟨⟨rfl, rfl, rfl, rfl⟩, rfl, rfl⟩
+
+/-- "€a" (E2 82 AC 61) as a Text message in three fragments — the first cut inside the 3-byte
+    character and sent with a non-minimal 16-bit length, the second empty, a Ping and a Pong before
+    the third, which uses a non-minimal 64-bit length —, then a Pong, a one-frame Binary message of
+    126 bytes (minimal 16-bit form), and a Close 1000 "ok" -/
+def exItems : List Item :=
+  [ .data { text := true, first := { payload := [0xE2], form := .ext16 },
+            rest := [ ([], { payload := [], form := .short }),
+                      ([{ pong := false, payload := [1, 2], form := .short },
+                        { pong := true, payload := [], form := .ext16 }],
+                       { payload := [0x82, 0xAC, 0x61], form := .ext64 }) ] },
+    .ctrl { pong := true, payload := [7], form := .short },
+    .data { text := false, first := { payload := List.replicate 126 255, form := .ext16 }, rest := [] } ]
+
+def exClose : CloseF := { body := some (1000, [111, 107]), form := .short }
+
+theorem ex_conforming : Conforming exItems (some exClose) := by
+  refine ⟨by decide +kernel, ?_⟩
+  intro c h
+  cases h
+  decide +kernel
+
+/-- the theorem applies to this stream and gives the concrete event list -/
+example : ∃ s', feedLoop (streamBytes exItems (some exClose)) exState = .ok true s' ∧
+    delivered s'.trace =
+      [ .closing (some 1000) [111, 107],
+        .binary (List.replicate 126 255),
+        .pong [7],
+        .text [0x20AC, 0x61],
+        .pong [],
+        .ping [1, 2] ] := by
+  obtain ⟨s', h, d, _⟩ := delivery exItems (some exClose) ex_conforming exState exState_good rfl rfl rfl
+    exState_between
+  refine ⟨s', h, ?_⟩
+  rw [d]
+  decide
+
+/-- the first bytes of that stream: `01 7E 00 01 E2` — a Text frame, FIN = 0, 16-bit length 1 -/
+example : (streamBytes exItems (some exClose)).take 5 = [0x01, 126, 0, 1, 0xE2] := by decide
+
+/-- `parse_one_frame`: a FIN Binary frame of 3 bytes in the non-minimal 64-bit form -/
+example : pFeed {} exState.p (serialise 0x82 .ext64 [1, 2, 3]) =
+    .ok ({ cont := .hdr2, remPred := 1 }, [.frame { opcode := 2, payload := [1, 2, 3] }]) :=
+  (parse_one_frame {} exState.p exState_between.b 0x82 .ext64 [1, 2, 3] (by decide) rfl 0 rfl).1
+
+/-- `parse_one_frame_invalid`: a Text frame starting with a lone continuation byte -/
+example : pFeed {} exState.p (serialise 0x81 .short [0x80]) = .error (.parse "invalid utf8") :=
+  parse_one_frame_invalid {} exState.p exState_between.b 0x81 .short [0x80] (by decide) rfl rfl
+
+/-- `reassembly` applies to the fragmented Text message above -/
+example : ∃ m, exItems.head? = some (.data m) ∧ m.Ok ∧ m.events = [.ping [1, 2], .pong [], .text [0x20AC, 0x61]] :=
+  ⟨_, rfl, by decide, by decide⟩
+
 end Lomond.C01
